@@ -7,6 +7,7 @@ package c14
 
 import (
 	"fmt"
+	"os"
 	"testing"
 
 	"github.com/alicebob/sqlittle"
@@ -41,8 +42,44 @@ func compare(built *bt.Built) (string, string) {
 		return fmt.Sprintf("open: %v", err), "decode:open"
 	}
 	defer d.Close()
+	if p, sig := compareOn(d, built, true, true); p != "" {
+		return p, sig
+	}
+	// the same image as a real file, through the file pager, and every read
+	// twice on the one handle (the second time from its page cache: reading
+	// must not have damaged what is cached)
+	path := env.NewPath()
+	defer sqdb.Remove(path)
+	if err := os.WriteFile(path, built.Img, 0o644); err != nil {
+		return "", ""
+	}
+	f, err := sdb.OpenFile(path)
+	if err != nil {
+		return fmt.Sprintf("open as a file: %v", err), "decode:open"
+	}
+	defer f.Close()
+	for pass := 1; pass <= 2; pass++ {
+		if err := f.RLock(); err != nil {
+			return fmt.Sprintf("lock: %v", err), "decode:open"
+		}
+		p, sig := compareOn(f, built, true, false) // low-level API: inside our read transaction
+		f.RUnlock()
+		if p == "" {
+			p, sig = compareOn(f, built, false, true) // high-level API: takes the lock itself
+		}
+		if p != "" {
+			return fmt.Sprintf("as a file, pass %d on the same handle: %s", pass, p), sig
+		}
+	}
+	return "", ""
+}
+
+func compareOn(d *sdb.Database, built *bt.Built, low, high bool) (string, string) {
 	for name, tb := range built.Tables {
 		if tb.Spec.WithoutRowid {
+			if !low {
+				continue
+			}
 			ix, err := d.NonRowidTable(name)
 			if err != nil {
 				return fmt.Sprintf("NonRowidTable(%s): %v", name, err), "decode:open-table"
@@ -73,38 +110,50 @@ func compare(built *bt.Built) (string, string) {
 			}
 			continue
 		}
-		tab, err := d.Table(name)
-		if err != nil {
-			return fmt.Sprintf("Table(%s): %v", name, err), "decode:open-table"
+		if low {
+			if p, sig := func() (string, string) {
+				tab, err := d.Table(name)
+				if err != nil {
+					return fmt.Sprintf("Table(%s): %v", name, err), "decode:open-table"
+				}
+				i := 0
+				var problem string
+				err = tab.Scan(func(rowid int64, rec sdb.Record) bool {
+					if i >= len(tb.Rows) {
+						problem = fmt.Sprintf("%s: extra row %d %v", name, rowid, rec)
+						return true
+					}
+					got, ok := bt.RecordVals(rec)
+					if rowid != tb.Rows[i].Rowid {
+						problem = fmt.Sprintf("%s row %d: rowid decoded %d, encoded %d", name, i, rowid, tb.Rows[i].Rowid)
+						return true
+					}
+					if !ok || !bt.ValsEqual(got, tb.Rows[i].Values()) {
+						problem = fmt.Sprintf("%s row %d (rowid %d): decoded %v, encoded %v", name, i, rowid, val.Row(got), val.Row(tb.Rows[i].Values()))
+						return true
+					}
+					i++
+					return false
+				})
+				if problem != "" {
+					return problem, "decode:table-cell"
+				}
+				if err != nil {
+					return fmt.Sprintf("%s: scan error %v after %d rows", name, err, i), "decode:table-error"
+				}
+				if i != len(tb.Rows) {
+					return fmt.Sprintf("%s: %d rows read, %d encoded", name, i, len(tb.Rows)), "decode:table-count"
+				}
+				return "", ""
+			}(); p != "" {
+				return p, sig
+			}
 		}
-		i := 0
+		if !high {
+			continue
+		}
 		var problem string
-		err = tab.Scan(func(rowid int64, rec sdb.Record) bool {
-			if i >= len(tb.Rows) {
-				problem = fmt.Sprintf("%s: extra row %d %v", name, rowid, rec)
-				return true
-			}
-			got, ok := bt.RecordVals(rec)
-			if rowid != tb.Rows[i].Rowid {
-				problem = fmt.Sprintf("%s row %d: rowid decoded %d, encoded %d", name, i, rowid, tb.Rows[i].Rowid)
-				return true
-			}
-			if !ok || !bt.ValsEqual(got, tb.Rows[i].Values()) {
-				problem = fmt.Sprintf("%s row %d (rowid %d): decoded %v, encoded %v", name, i, rowid, val.Row(got), val.Row(tb.Rows[i].Values()))
-				return true
-			}
-			i++
-			return false
-		})
-		if problem != "" {
-			return problem, "decode:table-cell"
-		}
-		if err != nil {
-			return fmt.Sprintf("%s: scan error %v after %d rows", name, err, i), "decode:table-error"
-		}
-		if i != len(tb.Rows) {
-			return fmt.Sprintf("%s: %d rows read, %d encoded", name, i, len(tb.Rows)), "decode:table-count"
-		}
+		i := 0
 		// the same through the high-level API
 		hl := sqlittle.VerifWrap(d)
 		var cols []string
@@ -112,7 +161,7 @@ func compare(built *bt.Built) (string, string) {
 			cols = append(cols, fmt.Sprintf("c%d", c))
 		}
 		i = 0
-		err = hl.Select(name, func(row sqlittle.Row) {
+		err := hl.Select(name, func(row sqlittle.Row) {
 			if problem != "" || i >= len(tb.Rows) {
 				i++
 				return
